@@ -146,7 +146,9 @@ def runCore (line : String) : String :=
         autoPong := kv ct "autopong" "1" = "1"
         closeTimeout := natOf (kv ct "ctimeout" "30")
         connect := if conn = "ok" then .ok false else if conn = "okproxy" then .ok true
-                   else if conn = "sockfail" then .socketFail else .otherFail
+                   else if conn = "sockfail" then .socketFail
+                   else if conn = "selfail" then .selFail false
+                   else if conn = "selfailproxy" then .selFail true else .otherFail
         request := hexD (kv ct "req" "")
         challenge := (hexD (kv ct "chal" ""))
         writeFails := fun k => wfl.contains k
